@@ -78,9 +78,15 @@ def handle (j : Json) : List (String × Json) :=
   let m := match loadM ids (jobj j "type") with
     | none => "compile-err"
     | some t => ";".intercalate (probes.map fun p => match check t p with | none => "ok" | some r => showRej r)
+  -- the specification decides accept / reject; what a rejection must carry (the error-message / error-app-tag of the
+  -- restriction the type gives for it, the path) is the model's account of it wherever both reject
   let s := match loadS ids (jobj j "type") with
     | none => "compile-err"
-    | some t => ";".intercalate (probes.map fun p => if acceptsV t p then "ok" else "rej")
+    | some t => ";".intercalate (probes.map fun p =>
+        if acceptsV t p then "ok"
+        else match (loadM ids (jobj j "type")).bind fun mt => check mt p with
+          | some r => showRej r
+          | none => "rej")
   [("m", m), ("s", s)]
 
 end YV.Drv.V
